@@ -5,6 +5,7 @@ props={json.loads(l)["id"]:json.loads(l) for l in open('/verif/properties.jsonl'
 claimed={
  "C20":("proof","sound over-approximating effect analysis: every write any exported API call can perform is classified; all obligations must be discharged; anything not understood fails closed","interprocedural effect and points-to analysis on go/ssa (engine A)"),
  "C01":("other","structural necessary conditions: rank-pass recurrences (matched by role), U1/U2 formulas, labeledMerge value/label pairing, exact-branch tails per alternative with the lattice-offset rule, exhaustiveness; one recorded finding (two-sided exact formula); not the exactness of UDist itself","recurrence-system and formula conformance on go/ssa (engine B)"),
+ "C02":("other","structural necessary conditions: support decision lists, tied/untied PMF and CDF formulas, mirror flip, the Mann-Whitney recurrence in UDist.p, makeUmemo coefficient recurrence, sibling agreement of its two passes, K=2 base case with floor division, step term; D-floor; not the combinatorial exactness of the counts","formula/recurrence conformance and sibling agreement on go/ssa (engine B) + D-floor"),
  "C03":("other","structural necessary conditions: no-mutation of arguments (engine A), error-guard reach conditions, method-selection condition over the two limit variables, normal-approximation formulas with tie and continuity correction, result plumbing; not 0<=P<=1 or invariance laws","effect analysis + reach-condition rules + formula conformance"),
  "C04":("other","structural necessary conditions: the statistic/DoF/tail formulas and error-guard reach conditions extracted from go/ssa are algebraically identical to the textbook formulas on every path; not numerical accuracy","formula conformance by algebraic value numbering on go/ssa + reach-condition rules"),
  "C10":("other","structural necessary conditions: R8 formula, clamping decision list, weighted scan recurrence, IQR, no-mutation; not monotonicity/order independence","formula conformance (engine B) + effect analysis (A) + integer discipline (D)"),
